@@ -818,6 +818,10 @@ class Guards:
                 g = Guard()
                 g.bb, g.kind, g.op, g.text = bb, "discr", X.last_seg(inner[1]), X.render(ex0)
                 g.L = {"call:%s@%s" % (X.short(inner[1]), inner[4])}
+                if X.last_seg(inner[1]) in X.CHECKED:
+                    # the unwrapped payload is reconstructed as plain arithmetic over the same operands
+                    for a in inner[3]:
+                        g.L |= leaves(a)
                 g.R = set()
                 g.Lc = g.Rc = None
                 self.guards.append(g)
@@ -877,6 +881,25 @@ def sub_guard(dom, a, b):
                 return g
             continue
         if (g.L & la and g.R & lb) or (g.L & lb and g.R & la):
+            return g
+    # transitive: a and b are both compared with a common third quantity (lower <= value <= upper)
+    if la and lb:
+        third_a, third_b = set(), set()
+        ga = gb = None
+        for g in dom:
+            if g.kind != "cmp" or g.op not in ("Lt", "Le", "Gt", "Ge"):
+                continue
+            for mine, other in ((g.L, g.R), (g.R, g.L)):
+                if mine & la and other and not (other & la):
+                    third_a |= other
+                    ga = ga or g
+                if mine & lb and other and not (other & lb):
+                    third_b |= other
+                    gb = gb or g
+        if third_a & third_b:
+            g = Guard()
+            g.bb, g.kind, g.op, g.L, g.R, g.Lc, g.Rc = ga.bb, "cmp", "transitive", la, lb, None, None
+            g.text = "%s and %s (common bound)" % (ga.text, gb.text)
             return g
     return None
 
